@@ -23,6 +23,9 @@ Rust (overflow checks) and truncates to `0` here — at each such site the follo
 as well (`[][0]`), so the outcome class agrees.
 Straight-line iterator pipelines (`split_axis(0)`, `split(parts, Some(0))`, `cycle().take(len)`,
 `parse_elements`, `transpose` of a matrix) are modelled by their list equivalents on well-formed arrays.
+Zero-length operands: every path through `zip` / `broadcast` (`vdot`, the 1-D arm of `inner`, the one-element arm of
+`dot`) refuses an empty operand (`is_broadcastable`, `shape.rs:18-29`), `split` of an empty array is the array itself
+(`innerSplit`); the index loops of `matmul` go through as written (empty sums, or a panic where `[][0]` is read).
 -/
 
 namespace ArrModel.C14
@@ -70,9 +73,14 @@ def sumProd (xs ys : List Int) : Int := (List.zipWith (· * ·) xs ys).foldl (·
 
 /-! ### vdot, outer -/
 
-/-- `vdot` (`products.rs:132-138`): `len` equal, else `MustBeEqual`; ravel both, zip, multiply, sum; `Array::single` -/
+/-- `vdot` (`products.rs:132-138`): `len` equal, else `MustBeEqual`; ravel both, zip, multiply, sum; `Array::single`.
+Zero-length operands: `zip` is `other.broadcast_to(self.shape)` whose first step `is_broadcastable` refuses every
+zero-length axis (`shape.rs:18-29`), so two empty operands are refused with `BroadcastShapeMismatch`
+(`C14.vdot_eq_zip` in `Lemmas/C14Ext.lean` shows this arm is the shared `Arr.zip` model on the raveled operands). -/
 def vdot (a b : A) : Res A :=
-  if a.len = b.len then .ok ⟨[sumProd a.elems b.elems], [1]⟩ else .err .MustBeEqual
+  if a.len = b.len then
+    (if a.len = 0 then .err .BroadcastShapeMismatch else .ok ⟨[sumProd a.elems b.elems], [1]⟩)
+  else .err .MustBeEqual
 
 /-- `outer` (`products.rs:153-159`) -/
 def outer (a b : A) : Res A :=
@@ -80,16 +88,19 @@ def outer (a b : A) : Res A :=
 
 /-! ### inner -/
 
-/-- 1-D × 1-D arm of `inner` (`products.rs:141-146`) -/
+/-- 1-D × 1-D arm of `inner` (`products.rs:141-146`); `self.zip(other)?` refuses zero-length operands
+(`broadcast_to` → `is_broadcastable`), see `vdot` -/
 def inner11 (a b : A) : Res A := do
   shapesAlign a.shape 0 b.shape 0
-  .ok ⟨[sumProd a.elems b.elems], [1]⟩
+  if a.len = 0 ∨ b.len = 0 then .err .BroadcastShapeMismatch
+  else .ok ⟨[sumProd a.elems b.elems], [1]⟩
 
 /-- `inner_split`: ravel, then `split(prod(shape without last axis), None)`: the rows -/
 def innerSplit (a : A) : Res (List A) := do
   let outerShape ← removeAt a.shape (a.ndim - 1)
   let parts := outerShape.prod
   if parts = 0 then .err .ParameterError
+  else if a.len = 0 then .ok [Arr.flat a.elems]     -- `split`: `is_empty` ⇒ `vec![self.clone()]` (one empty piece, whatever `parts` is)
   else .ok ((pieces (a.len / parts) a.elems parts).map Arr.flat)
 
 /-- `inner_nd` (`products.rs:253-275`); the recursive `v_a1.inner(v_a2)` is on 1-D rows, i.e. `inner11` -/
@@ -232,9 +243,12 @@ def bshape (s t : List Nat) : List Nat :=
   let pad := fun (u : List Nat) => u.reverse ++ List.replicate (n - u.length) 1
   (List.zipWith (fun d1 d2 => if d1 = 1 then d2 else d1) (pad s) (pad t)).reverse
 
-/-- `self.multiply(other)` when one operand has exactly one element -/
+/-- `self.multiply(other)` when one operand has exactly one element.  An EMPTY other operand is refused: `broadcast`
+ends in `other.broadcast_to(final_shape)`, whose `is_broadcastable` meets the operand's own zero-length axis. -/
 def multiplyScalar (a b : A) : Res A :=
   match a.elems, b.elems with
+  | [_], [] => .err .BroadcastShapeMismatch
+  | [], [_] => .err .BroadcastShapeMismatch
   | [x], ys => .ok ⟨ys.map (fun y => x * y), bshape a.shape b.shape⟩
   | xs, [y] => .ok ⟨xs.map (fun x => x * y), bshape a.shape b.shape⟩
   | _, _ => .panic
@@ -263,7 +277,7 @@ def dot1d (a b : A) : Res A := do
   dotIterate v1 v2
 
 /-- `dot` (`products.rs:118-130`).  `none`: an arm with an operand of rank ≥ 3 (`dot_1d` on a stack, `dot_nd`),
-which the property does not speak about and which is not modelled. -/
+which the property does not speak about; those two arms are modelled in `ArrModel/C14Ext.lean` (`dotFull`). -/
 def dot (a b : A) : Option (Res A) :=
   if a.len = 1 ∨ b.len = 1 then some (multiplyScalar a b)
   else if a.ndim = 1 ∧ b.ndim = 1 then some (vdot a b)
